@@ -40,7 +40,8 @@ VGM_Writer::VGM_Writer(const char* filename, int version, int header_size)
 	completed(0),
 	curr_delay(0),
 	sample_count(0),
-	loop_sample(0)
+	loop_sample(0),
+	loop_set(0)
 {
 	// create initial buffer
 	buffer = (uint8_t*) std::calloc(initial_buffer_alloc, sizeof(uint8_t));
@@ -162,6 +163,7 @@ void VGM_Writer::set_loop()
 {
 	add_delay();
 	loop_sample = sample_count;
+	loop_set = 1;
 	poke32(0x1c, get_position()-0x1c);
 }
 
@@ -192,7 +194,7 @@ void VGM_Writer::stop()
 	add_delay();
 	*buffer_pos++ = 0x66;
 	poke32(0x18, sample_count);
-	if(loop_sample)
+	if(loop_set)
 		poke32(0x20, sample_count - loop_sample);
 	completed = 1;
 }
